@@ -380,6 +380,7 @@ func genConc(o *hx.Opts, i int) *ConcIn {
 		n++
 	}
 	callers := 2 + rnd.Intn(15)
+	sharedIDs := i%3 == 2
 	for c := 0; c < callers; c++ {
 		var reqs []Req
 		for k := 3 + rnd.Intn(8); k > 0; k-- {
@@ -387,7 +388,13 @@ func genConc(o *hx.Opts, i int) *ConcIn {
 			if rnd.Intn(2) == 0 {
 				ev = []int{rt.EvCreate, rt.EvUpdate, rt.EvStop}[rnd.Intn(3)]
 			}
-			reqs = append(reqs, Req{Ev: ev, ID: fmt.Sprintf("c%d-%d", c, len(reqs))})
+			id := fmt.Sprintf("c%d-%d", c, len(reqs))
+			if sharedIDs {
+				// the callers talk about the SAME few pods/containers at the same time; the requests
+				// stay distinguishable for the plugins (tag after '#', see rt.pod / rt.ctr)
+				id = fmt.Sprintf("s%d#%s", rnd.Intn(2), id)
+			}
+			reqs = append(reqs, Req{Ev: ev, ID: id})
 		}
 		in.Callers = append(in.Callers, reqs)
 	}
